@@ -34,6 +34,7 @@ def opsPackets (op : String) (args : List SExp) : Option String :=
         | "bytes" => some (initBytes chunks.flatten)
         | "file" => some (initFile chunks total)
         | "socket" => some (initSocket chunks)
+        | "pipe" => some (initSocket chunks)       -- a file object that cannot seek: total length unknown, read until empty
         | _ => none
       let out := frame ⟨skip, trim⟩ st
       pure ("pkts" ++ String.join (out.map (fun p => " " ++ showHex p)))
